@@ -12,7 +12,9 @@ ClusterClauses(e) ==
     abs_zero_real   |-> (e.index_real = TRUE) => e.mb_abs_over_ext <= Tol_cs_cluster,
     sca_pos         |-> e.sca_pos = TRUE,
     g_range         |-> e.g_in_range = TRUE,
-    optical_theorem |-> e.mb_optical_theorem <= Tol_cs_cluster ]
+    optical_theorem |-> e.mb_optical_theorem <= Tol_cs_cluster,
+    sca_integral    |-> e.mb_sca_integral <= Tol_cs_cluster_integral,
+    g_integral      |-> e.mb_g_integral <= Tol_cs_cluster_integral ]
 SphereClauses(e) ==
   [ ext_is_sum      |-> e.mb_ext_is_sum <= Tol_cs_ext_is_sum,
     abs_nonneg      |-> e.mb_abs_neg_part <= AbsTol(e),
